@@ -146,7 +146,14 @@ def _d3(chk, fb):
                     retarget.append(n)
                 elif any(x["k"] == "DeclRefExpr" and x["decl"]["id"] == d["id"] for a in f.args(n) for x in walk(a)):
                     uses.append(n)
-            good = [r for r in retarget if render(f.args(r)[0]) in ("&this.getParameters_()", "&getParameters_()")]
+            good = [r for r in retarget if render(f.args(r)[0], sub).replace("this.", "") in ("&getParameters_()",)]
+            if not good and retarget:
+                tgt_ = render(f.args(retarget[0])[0], sub)
+                if src in tgt_:
+                    chk.refuted("D3", f.key, "listener-retargeted", f.loc(retarget[0]), "cloned listener '%s' is re-targeted to the SOURCE object's list (%s): the copy's aliases act on the source's parameters" % (d["name"], tgt_))
+                else:
+                    chk.unknown("D3", f.key, "listener-retargeted", f.loc(retarget[0]), "cloned listener '%s' is re-targeted to '%s', which is not recognised as the copy's own list" % (d["name"], tgt_))
+                continue
             if not good:
                 chk.refuted("D3", f.key, "listener-retargeted", f.loc(ds), "cloned listener '%s' is never re-targeted to the copy's own parameter list (setParameterList(&getParameters_()))" % d["name"])
                 continue
@@ -266,8 +273,15 @@ def _d5(chk, fb):
         early = [b for b in base if any(e1.before_in_function(cfg, b, r) for r in renames)]
         loops = [n for n in walk(h.body) if n["k"] in ("CXXForRangeStmt", "ForStmt")]
         over_all = any("aliasListenersRegister_" in render(h.nodes[l["rangeinit"]]) for l in loops if "rangeinit" in l)
+        # std::for_each / iterator loop over begin()..end() of the registry is the same range
+        over_all = over_all or any(c["callee"]["qname"] in ("std::for_each", "std::transform") and len(h.args(c)) >= 2 and render(h.args(c)[0]).replace("this.", "") == "aliasListenersRegister_.begin()"
+                                   and render(h.args(c)[1]).replace("this.", "") == "aliasListenersRegister_.end()" for c in h.calls())
+        over_all = over_all or any(l["k"] == "ForStmt" and "init" in l and "aliasListenersRegister_.begin()" in render(h.nodes[l["init"]]) and "cond" in l and "aliasListenersRegister_.end()" in render(h.nodes[l["cond"]]) for l in loops)
+        partial = any(c["callee"]["qname"] in ("std::for_each",) and len(h.args(c)) >= 2 and "aliasListenersRegister_" in render(h.args(c)[0]) for c in h.calls()) and not over_all
         if early and uses_old:
             chk.refuted("D5", h.key, "rename-before-base", h.loc(early[0]), "the base class switches the namespace before the listeners are renamed, but their renaming strips the OLD namespace (getNamespace())")
+        elif not over_all and not loops and not partial:
+            chk.unknown("D5", h.key, "rename-listeners", h.loc(), "the traversal of the listener registry is not in a recognised form")
         elif not over_all:
             chk.refuted("D5", h.key, "rename-listeners", h.loc(), "listener renaming does not range over the whole registry")
         else:
